@@ -233,6 +233,11 @@ class Program:
                 selfty = last_seg(a0.lstrip("&").replace("mut ", ""))
             self.methods.setdefault((selfty, trait, meth), f)
             self.methods.setdefault((selfty, None, meth), f)
+            if not hdr.startswith("impl") and f.ret:
+                # derive-generated impl (the span is the derive name): Self may only occur in the return type (`From::from`)
+                rs = last_seg(f.ret.lstrip("&").replace("mut ", ""))
+                if rs and rs != selfty:
+                    self.methods.setdefault((rs, None, meth), f)
 
     def _src_span(self, file, l1, c1, l2, c2):
         p = os.path.join(self.srcroot, "..", file) if not os.path.exists(os.path.join(self.srcroot, file)) else os.path.join(self.srcroot, file)
@@ -257,9 +262,14 @@ class Program:
             return f
         c = callee
         m = re.match(r"^<(.*) as (.*)>::([A-Za-z_0-9]+)(::<.*>)?$", c)
+        if m and m.group(1).startswith("&"):
+            return None     # std's forwarding impls on references (`impl PartialEq for &A`): handled by a model that unwraps
         if m:
             key = (last_seg(m.group(1).lstrip("&").replace("mut ", "")), last_seg(m.group(2)), m.group(3))
-            return self.methods.get(key)
+            r = self.methods.get(key)
+            if r is None and key[1] in ("From", "Into", "Not", "Clone", "PartialEq", "Default"):
+                r = self.methods.get((key[0], None, key[2]))
+            return r
         m = re.match(r"^(?:.*::)?<impl (.*)>::([A-Za-z_0-9]+)(::<.*>)?$", c)
         if m:
             st = last_seg(m.group(1))
